@@ -9,7 +9,7 @@ writes /verif/seeded/<name>/{patch.diff,demo.rs,NOTES.md,meta.json}; removes eve
 import json, os, re, shutil, subprocess, sys, tempfile, time
 VERIF = os.path.dirname(os.path.dirname(os.path.dirname(os.path.abspath(__file__))))
 REPO = "/repo"
-ENV = dict(os.environ, CARGO_NET_OFFLINE="true", CARGO_TARGET_DIR=os.path.join(VERIF, ".cache", "target-tests"))
+ENV = dict(os.environ, CARGO_NET_OFFLINE="true", CARGO_TARGET_DIR=os.environ.get("VERIF_TESTS_TARGET", os.path.join(VERIF, ".cache", "target-tests")))
 
 def sh(cmd, cwd, env=ENV, timeout=3600):
     r = subprocess.run(cmd, cwd=cwd, env=env, capture_output=True, text=True, timeout=timeout)
